@@ -70,9 +70,9 @@ Definition do_req (ctl_ok : bool) (t : txn) (os : list tord) (r : treq) : txn * 
                                           to_remaining := to_remaining o; to_in_blotter := to_in_blotter o; to_client := tx_client t; to_red := to_red o; to_newprice := to_newprice o; to_ctx := to_ctx o |}) os in
           if execute && negb force && negb ctl_ok then (t, tupd name refuse_mark os, TRefused)
           else
-            let os1 := tupd name (fun o => set_st o SPending false) os in
-            if to_in_blotter o then (t, os1, TRaisedPlaced)          (* order.place() ran before the membership test *)
+            if to_in_blotter o then (t, os, TRaisedPlaced)           (* the membership test comes first (repair of F-C02-2): the order is not touched *)
             else
+            let os1 := tupd name (fun o => set_st o SPending false) os in
               let os2 := tupd name (fun o => {| to_name := to_name o; to_status := to_status o; to_bet := to_bet o; to_type := to_type o; to_persist := to_persist o; to_price := to_price o;
                                                 to_remaining := to_remaining o; to_in_blotter := true; to_client := to_client o; to_red := to_red o; to_newprice := to_newprice o; to_ctx := to_ctx o || execute |}) os1 in
               if execute then
